@@ -599,7 +599,11 @@ func (g *c12L2) rotatedParams() *L2Params {
 		np.Execs = nil
 		n := 1 + r.Intn(3)
 		for j := 0; j < n; j++ {
-			np.Execs = append(np.Execs, e.User(uint64(1+r.Intn(6))).Str)
+			x := e.User(uint64(1 + r.Intn(6))).Str
+			if r.Chance(20) { // stored in the non-canonical (upper-case) spelling: the same address bytes
+				x = upperBech32(x)
+			}
+			np.Execs = append(np.Execs, x)
 		}
 		if r.Chance(25) {
 			np.Execs = append(np.Execs, e.Auth)
@@ -981,7 +985,12 @@ func (g *c12L2) do(o L2Op, wf, expectOK bool, class string) ExecResult {
 		}
 		for _, x := range execs2 {
 			if !g.isExec(x, execs) && g.decode(x) != nil {
-				g.queue = append(g.queue, c12Follow{"setinfo", x, 0, true, false})
+				// the new executor in the stored spelling and in the other spelling of the same bytes
+				other := upperBech32(x)
+				if other == x {
+					other = strings.ToLower(x)
+				}
+				g.queue = append(g.queue, c12Follow{"setinfo", x, 0, true, false}, c12Follow{"setinfo", other, 0, true, false})
 			}
 		}
 	}
